@@ -480,6 +480,36 @@ def r7(ctx):
     except (Unfoldable, Exception) as e_:
         ctx.emit('C06-R7', False, FRAGMENT, v, f'has_valid_span is outside the interpreted subset ({type(e_).__name__}: {e_})', key='valid-span-at-zero', undecided=True)
     ctx.counters['interpreted_cases'] += n
+    # (d) the span of an inward pair is anchored on the 5' end of R1 (the coordinate the plain fragment is compared by), also when R2 runs past it
+    u = ctx.fn(FRAGMENT, 'Fragment.update_span')
+    bad, n = None, 0
+    try:
+        from ..consteval import module_scope, Evaluator, Instance
+        env = module_scope(ctx.ix, FRAGMENT)
+        cls = env['Fragment']
+
+        def read(rev, s_, e_, r1):
+            return Instance(attrs={'is_reverse': rev, 'reference_start': s_, 'reference_end': e_, 'reference_name': 'chr1', 'is_unmapped': False, 'is_read1': r1, 'is_read2': not r1, 'cigar': [(0, e_ - s_)]})
+        cases = [('R1 forward 100-150, R2 reverse 180-230', read(False, 100, 150, True), read(True, 180, 230, False), ('chr1', 100, 230)),
+                 ('R1 forward 100-150, R2 reverse 95-140 (R2 runs past the start of R1)', read(False, 100, 150, True), read(True, 95, 140, False), ('chr1', 100, 140)),
+                 ('R1 reverse 180-230, R2 forward 100-150', read(True, 180, 230, True), read(False, 100, 150, False), ('chr1', 100, 230)),
+                 ('R1 reverse 180-230, R2 forward 190-240 (R2 runs past the end of R1)', read(True, 180, 230, True), read(False, 190, 240, False), ('chr1', 190, 230)),
+                 ('R1 forward 100-150 only', read(False, 100, 150, True), None, ('chr1', 100, 150)),
+                 ('R2 reverse 180-230 only', None, read(True, 180, 230, False), ('chr1', 180, 230))]
+        for text, r1, r2, want in cases:
+            n += 1
+            frag = Instance(cls, attrs={'reads': [r1, r2], 'R1': r1, 'R2': r2, 'span': [None, None, None], 'safe_span': None, 'single_end': False})
+            e = dict(env)
+            e['frag'] = frag
+            Evaluator(e, budget=20000).ev(ast.parse('frag.update_span()', mode='eval').body, e)
+            got = tuple(frag.attrs.get('span'))
+            if got != want and bad is None:
+                bad = f'update_span of a fragment with {text} gives the span {got}, expected {want}: the copies of one molecule are compared by the 5\' end of R1, a copy whose R2 runs past it gets another span and starts a molecule of its own'
+        ctx.emit('C06-R7', bad is None, FRAGMENT, u, f'update_span on {n} model fragments (inward pairs on both strands, with and without R2 running past the R1 end, single mates): the span runs from / to the 5\' end of R1' if bad is None else bad,
+                 key='span-anchored-on-R1', what='Fragment.update_span: the span of an inward pair is not anchored on the R1 end')
+    except (Unfoldable, Raised, Exception) as e_:
+        ctx.emit('C06-R7', False, FRAGMENT, u, f'update_span is outside the interpreted subset ({type(e_).__name__}: {str(e_)[:80]})', key='span-anchored-on-R1', undecided=True)
+    ctx.counters['interpreted_cases'] += n
     # (c)
     init = ctx.fn(FRAGMENT, 'Fragment.__init__')
     allowed = {'self.sample', 'self.strand', 'self.span[0]', 'self.get_span()[0]', 'self.get_strand()', 'self.get_sample()'}
